@@ -29,6 +29,11 @@ def doc_text(doc):
 
 
 def attr(doc, style, indent=""):
+    # MC_C15!Companies: the entry under test is the element's only doc attribute, or stands after / before another (single-line) one
+    if style.endswith("_after_line"):
+        return f"{indent}/// a first line\n" + attr(doc, style[:-len("_after_line")], indent)
+    if style.endswith("_before_line"):
+        return attr(doc, style[:-len("_before_line")], indent) + f"{indent}/// a last line\n"
     text = doc_text(doc)
     if style == "line":
         return "".join(f"{indent}/// {l}\n" for l in text.split("\n"))
@@ -39,6 +44,7 @@ def attr(doc, style, indent=""):
 
 
 def usable(doc, style):
+    style = style.replace("_after_line", "").replace("_before_line", "")
     if style == "block":       # the text must not end the Rust block comment itself, and /* must not open a nested one
         return "BC" not in doc and "BO" not in doc and "CR" not in doc and "NLBC" not in doc and "BCCR" not in doc
     if style == "line":        # a bare carriage return is not allowed in a Rust `///` comment; CR LF is an ordinary line ending
@@ -127,10 +133,11 @@ def run(chk):
     chk.sample({"doc_tokens": docs[len(docs) // 2]["doc"], "model_predicts_safe": docs[len(docs) // 2]["predict_safe"], "text": doc_text(docs[len(docs) // 2]["doc"])})
     cases = []
     for d in docs:
-        for style in ("line", "block", "attr"):
+        for style in ("line", "block", "attr") + tuple(d.get("companies", ())):
             if not usable(d["doc"], style):
                 continue
-            for pos in (POSITIONS if thorough or len(d["doc"]) == 1 else POSITIONS[:4] + ["tagged"]):
+            company = style.endswith("_line")
+            for pos in (POSITIONS if (thorough or len(d["doc"]) == 1) and not company else POSITIONS[:4] + ["tagged"] if not company else ["type", "field", "variant"]):
                 cases.append((d, style, pos))
     srcs = [source(d["doc"], style, pos) for d, style, pos in cases]
     results = observe.generate(srcs)
